@@ -81,7 +81,7 @@ def gen_case(rng, kind):
     return {"spec": spec, "kind": kind, "other_kind": ok_, "writer": ["dask", "pack"][int(rng.integers(2))],
             "npartitions": int(rng.choice([1, 2, 3, 7, 11, 12, 16])),
             "geometry": [None, "ga", "gb"][int(rng.integers(3))],
-            "multi": ["none", "none", "list", "glob"][int(rng.integers(4))],
+            "multi": ["none", "none", "list", "glob", "list-mixed"][int(rng.integers(5))],
             "rewrite": bool(rng.random() < 0.3), "exact": exact,
             # input partitions emptied by a row filter before writing (their files hold zero rows)
             "empty_parts": sorted(set(int(v) for v in rng.integers(0, 16, int(rng.integers(1, 3)))))
@@ -143,7 +143,10 @@ def check_case(ctx, case):
                     else:
                         guarded("write-previous", lambda: (odf.pack_partitions_to_parquet(p, npartitions=2, p=8), 1)[1])
                     guarded("read-previous", lambda: read_parquet_dask(p).geometry.partition_bounds)
-                if case["writer"] == "dask":
+                if case["multi"] == "list-mixed" and di == 1:
+                    # the second dataset is written without the spatial metadata (plain Dask writer)
+                    r = guarded("write-plain", lambda: dd.to_parquet(ddf, p, write_metadata_file=False) or 1)
+                elif case["writer"] == "dask":
                     r = guarded("write", lambda: ddf.to_parquet(p, overwrite=True) or 1 if ow else ddf.to_parquet(p) or 1)
                 else:
                     r = guarded("write", lambda: (ddf.pack_partitions_to_parquet(p, npartitions=npart, p=8,
@@ -151,8 +154,10 @@ def check_case(ctx, case):
                 if r is None:
                     return
                 paths.append(p)
-            arg = paths[0] if case["multi"] == "none" else (paths if case["multi"] == "list"
+            arg = paths[0] if case["multi"] == "none" else (paths if case["multi"] in ("list", "list-mixed")
                                                             else os.path.join(root, "d*.parq"))
+            if case["multi"] == "list-mixed" and case["seed"] % 2:
+                arg = paths[::-1]
             g = case["geometry"]
             rd = guarded("read", lambda: read_parquet_dask(arg, geometry=g) if g else read_parquet_dask(arg))
             if rd is None:
@@ -166,6 +171,26 @@ def check_case(ctx, case):
             ctx.case([spec["cols"], case["writer"], case["npartitions"], g, case["multi"]], nontrivial=nparts >= 2)
             ctx.sig(kind, case["writer"], f"np{nparts if nparts < 11 else '11+'}", str(g), case["multi"],
                     "rewritten-path" if case.get("rewrite") else "-")
+            if case["multi"] == "list-mixed":
+                # nothing is recorded for one of the datasets: the frame exposes either no bounds table or a
+                # complete and correct one, and a bounds= read never loses an intersecting row
+                ctx.count("mixed_metadata_reads")
+                cached = getattr(rd, "_partition_bounds", None) or {}
+                tb_ = {c: [list(total_ref(kinds[c], gg.pylist(pt[c].array))) for pt in parts] for c in ("ga", "gb")}
+                for c, tab in cached.items():
+                    if len(tab) != nparts or not all(_eq4(tab.iloc[i].values, tb_[c][i]) for i in range(nparts)):
+                        viol("bounds-wrong", f"partition-bounds:partial-table-exposed:mixed-metadata:{case['writer']}",
+                             [nparts, tb_[c][:4]], [len(tab), tab.values.tolist()[:4]], {"column": c})
+                all_ids = sorted(r_ for pt in parts for r_ in pt["rid"].tolist())
+                for bx in ([-10, -10, 10 ** 5, 10 ** 5], [10 ** 6, 10 ** 6, 10 ** 6 + 1, 10 ** 6 + 1]):
+                    rb = guarded("read-bounds-mixed", lambda: read_parquet_dask(arg, geometry=act, bounds=tuple(bx)).compute())
+                    if rb is None:
+                        continue
+                    ctx.count("prunes_checked")
+                    if bx[0] < 0 and sorted(rb["rid"].tolist()) != all_ids:
+                        viol("row-lost", "partition-bounds:mixed-metadata:pruning-loses-intersecting-row",
+                             len(all_ids), len(rb), {"box": bx})
+                return
             # extents recomputed from the rows actually stored in each loaded partition
             true_b = {c: [list(total_ref(kinds[c], gg.pylist(pt[c].array))) for pt in parts] for c in ("ga", "gb")}
             # (a) cached table
@@ -297,6 +322,30 @@ def check_case(ctx, case):
                                 _eq4(tab.iloc[j].values, expb[j]) for j in range(len(expb))):
                             viol("bounds-after-prune", f"partition-bounds:bounds-after-pruning:{'active' if c == act else 'other-column'}",
                                  expb[:6], None if tab is None else tab.values.tolist()[:6], {**pw, "column": c})
+                            break
+            # ---- a failing read of the recorded bounds is never mistaken for "nothing recorded" ---------------
+            if case["multi"] == "none" and case["seed"] % 3 == 0 and fin:
+                from .. import fsmon
+
+                def outcome(fs_):
+                    r_ = read_parquet_dask(paths[0], geometry=act, bounds=tuple(boxes[0]), filesystem=fs_)
+                    tabs = getattr(r_, "_partition_bounds", None) or {}
+                    return (r_.npartitions, sorted(tabs), r_["rid"].compute().tolist())
+                fs0 = fsmon.MonFS()
+                ok0, ref_, tb0 = ctx.guarded(outcome, fs0)
+                fs0.armed = False
+                if ok0:
+                    opens = [e["k"] for e in fs0.events if e["op"] in ("open", "cat", "cat_file", "info", "size", "exists", "isfile")
+                             and any(str(p_).endswith("_common_metadata") for p_ in e["paths"])]
+                    for k_ in opens[:6]:
+                        fs1 = fsmon.MonFS(faults={k_: OSError})
+                        ok1, got_, tb1 = ctx.guarded(outcome, fs1)
+                        fs1.armed = False
+                        ctx.count("metadata_read_faults_injected")
+                        if ok1 and fs1.fired and got_ != ref_:
+                            viol("fault-swallowed", "partition-bounds:failing-metadata-read-taken-for-no-metadata",
+                                 [ref_[0], ref_[1], len(ref_[2])], [got_[0], got_[1], len(got_[2])],
+                                 {"box": boxes[0], "operation": [e["op"] for e in fs0.events if e["k"] == k_]})
                             break
             if len(ctx.samples) < 4:
                 ctx.sample({"kind": kind, "writer": case["writer"], "partitions": nparts,
